@@ -39,6 +39,8 @@ def main(argv):
                 return (cd.replay_c19 if a.prop == "C19" else cd.replay_c18)(a.replay)
             return (cd.main_c19 if a.prop == "C19" else cd.main_c18)(t)
         from sim import c12
+        if a.digests is not None:
+            return c12.digests(t)
         if a.replay:
             return c12.replay(a.replay)
         return c12.main(t)
